@@ -846,6 +846,22 @@ pub fn process_request(input: &str, dbs: &Arc<Databases>, client: &mut Client) -
         crate::bo::get_var_type(&request)
     );
 
+    // $connections belongs to the node, it says how many sessions have the database selected: a
+    // client that wrote it made it say anything (and at the version ceiling froze it for good)
+    match &request {
+        Request::Set { key, .. }
+        | Request::Remove { key }
+        | Request::Increment { key, .. }
+        | Request::Resolve { key, .. }
+            if key == CONNECTIONS_KEY =>
+        {
+            return Response::Error {
+                msg: String::from("$connections is written by the server only"),
+            }
+        }
+        _ => (),
+    }
+
     // A key write and its hand over to the replication channel happen under one lock, otherwise
     // two clients writing the same key at the same time can reach the other nodes in the opposite
     // order of the one they were applied in here, and the nodes end with different values
